@@ -11,6 +11,6 @@ echo "--- demo on the untouched tree (expect 0)"; PYTHONPATH=$vt timeout 600 /ve
 git apply $sd/patch.diff || { echo "PATCH DOES NOT APPLY"; exit 3; }
 echo "--- demo with the change (expect 1)"; PYTHONPATH=$vt timeout 600 /venv/bin/python $sd/demo.py >/tmp/vt-$id.demo1 2>&1; echo "rc=$?"; tail -3 /tmp/vt-$id.demo1
 echo "--- repository test-suite with the change"
-PYTHONPATH=$vt /venv/bin/python -m pytest -q -p no:cacheprovider -n 8 --deselect tests/test_map_collection.py::test_maps 2>&1 | tail -1
+PYTHONPATH=$vt /venv/bin/python -m pytest -q -p no:cacheprovider -n 6 --deselect tests/test_map_collection.py::test_maps 2>&1 | tail -1
 echo "--- checks against the changed tree"
 /verif/tools/seedtest.sh $vt "$checks"
